@@ -27,7 +27,13 @@ The world outside go-zero is a parameter:
     from then on database/sql refuses every statement made with that context with ctx.Err() *before* the driver
     is reached; because the sql.Tx is not bound to the context, nothing is rolled back behind go-zero's back and
     Commit / Rollback still reach the driver;
-  * the breaker's admission decision and the context's state at the call are inputs (`Env`).
+  * the breaker's admission decision and the context's state at the call are inputs (`Env`);
+  * every error value has a class for `commonSqlConn.acceptable` (`Cls`): the body's own error, the error of a
+    QueryRow that finds no row (`SK.rowq`: sqlx.ErrNotFound = sql.ErrNoRows), and — round 4 — the error a failing
+    Commit / Rollback returns (`Faults.commitCls` / `rollbackCls`, `Src.commit c` / `Src.rollback c`); which user
+    functions `WithAcceptable` installed is `UA` (two functions, composed by `withAcceptable`);
+  * `TransactCtx` is `brkDo … (acceptable ua) (transactFn …)`: the breaker's DoWithAcceptableCtx around `transact`
+    (`Props.transactCtx_is_wrapped_transact`); `brkDo` is stated for an arbitrary acceptable function.
 The result records the driver-call log, how often the body ran, how it ended, the returned error (identity
 chain as seen by `errors.Is` + what is only mentioned in the message), whether the call left by a panic of the
 driver instead of returning (`escaped`), and what the breaker was told.
@@ -41,7 +47,8 @@ inductive Cls
   | txDone     -- errors.Is(err, sql.ErrTxDone)
   | canceled   -- errors.Is(err, context.Canceled)
   | accType    -- an `acceptableError` value (errors.As)
-  | userOk     -- accepted by the function installed with `WithAcceptable`
+  | userOk     -- accepted by the (first) function installed with `WithAcceptable`
+  | userOk2    -- accepted by a second function installed with a second `WithAcceptable` option
   deriving DecidableEq, Repr, Inhabited
 
 /-- where an error value (or a value mentioned in a message) originated -/
@@ -49,8 +56,8 @@ inductive Src
   | begin                -- the driver refused Begin
   | body (c : Cls)       -- the body's own error
   | stmt (i : Nat)       -- the driver's fault on the i-th statement
-  | commit               -- the driver's fault on Commit (error, or the value it panicked with)
-  | rollback             -- the driver's fault on Rollback (error, or the value it panicked with)
+  | commit (c : Cls)     -- the driver's fault on Commit (an error of class `c`, or — `.plain` — the value it panicked with)
+  | rollback (c : Cls)   -- the driver's fault on Rollback (likewise)
   | conn                 -- connProv failed (no *sql.DB)
   | ctx                  -- context.Canceled: from the breaker's context check, or from database/sql refusing a statement
   | breaker              -- breaker.ErrServiceUnavailable
@@ -84,6 +91,7 @@ inductive Ev
 
 inductive SK
   | exec | query | nest
+  | rowq     -- a QueryRow[Partial][Ctx] whose query finds no row: the driver answers ok, sqlx yields ErrNotFound (= sql.ErrNoRows)
   deriving DecidableEq, Repr, Inhabited
 
 /-- one statement of the body: what it calls, whether the driver faults it, and whether the body
@@ -127,6 +135,8 @@ structure Faults where
   badConn  : Nat := 0           -- Begin is answered driver.ErrBadConn this many times first
   commitPanics   : Bool := false  -- the driver's Commit panics
   rollbackPanics : Bool := false  -- the driver's Rollback panics
+  commitCls   : Cls := .plain     -- how `acceptable` classifies the error a failing Commit returns
+  rollbackCls : Cls := .plain     -- … a failing Rollback returns
   deriving DecidableEq, Repr, Inhabited
 
 structure Result where
@@ -164,13 +174,14 @@ def cancelled (c : Option Nat) (i : Nat) : Bool :=
 
 /-- the statement yields an error: nested transaction, driver fault, or refused by database/sql (context done) -/
 def Stmt.failingAt (c : Option Nat) (i : Nat) (s : Stmt) : Bool :=
-  s.kind == .nest || s.fails || cancelled c i
+  s.kind == .nest || s.kind == .rowq || s.fails || cancelled c i
 
 /-- driver calls of statement `i`: none for a nested transaction and none once the context is done -/
 def stmtEvAt (c : Option Nat) (i : Nat) (s : Stmt) : List Ev :=
   match s.kind with
   | .exec => if cancelled c i then [] else [.exec i (!s.fails)]
   | .query => if cancelled c i then [] else [.query i (!s.fails)]
+  | .rowq => if cancelled c i then [] else [.query i (!s.fails)]
   | .nest => []
 
 def ctxSrc (dl : Bool) : Src := if dl then .deadline else .ctx
@@ -178,6 +189,7 @@ def ctxSrc (dl : Bool) : Src := if dl then .deadline else .ctx
 def stmtSrcAt (c : Option Nat) (dl : Bool) (i : Nat) (s : Stmt) : Src :=
   match s.kind with
   | .nest => .nest
+  | .rowq => if cancelled c i then ctxSrc dl else if s.fails then .stmt i else .body .noRows
   | _ => if cancelled c i then ctxSrc dl else .stmt i
 
 /-- the statements of the body from index `i` on: driver calls made, and the statement error the body
@@ -208,26 +220,26 @@ def transactOnce (f : Faults) (b : Body) : Result :=
       -- recover() ≠ nil: Rollback; the error mentions the panic value and wraps a rollback failure
       if f.rollbackPanics then
         { log := .begin true :: ((runBody b).1 ++ [.rollback false]), runs := 1, body := .panic,
-          ret := some (Err.of .rollback), escaped := true }
+          ret := some (Err.of (.rollback .plain)), escaped := true }
       else
       { log := .begin true :: ((runBody b).1 ++ [.rollback f.rollback]), runs := 1, body := .panic,
-        ret := some { is := if f.rollback then [] else [.rollback], says := [.panic] } }
+        ret := some { is := if f.rollback then [] else [.rollback f.rollbackCls], says := [.panic] } }
     | .err e =>
       -- err ≠ nil: Rollback; a rollback failure is wrapped, the body's error then only mentioned (%s)
       if f.rollbackPanics then
         { log := .begin true :: ((runBody b).1 ++ [.rollback false]), runs := 1, body := .err e,
-          ret := some (Err.of .rollback), escaped := true }
+          ret := some (Err.of (.rollback .plain)), escaped := true }
       else
       { log := .begin true :: ((runBody b).1 ++ [.rollback f.rollback]), runs := 1, body := .err e,
-        ret := some (if f.rollback then e else { is := [.rollback], says := e.is ++ e.says }) }
+        ret := some (if f.rollback then e else { is := [.rollback f.rollbackCls], says := e.is ++ e.says }) }
     | _ =>
       -- err = nil: the result is Commit's
       if f.commitPanics then
         { log := .begin true :: ((runBody b).1 ++ [.commit false]), runs := 1, body := .nil,
-          ret := some (Err.of .commit), escaped := true }
+          ret := some (Err.of (.commit .plain)), escaped := true }
       else
       { log := .begin true :: ((runBody b).1 ++ [.commit f.commit]), runs := 1, body := .nil,
-        ret := if f.commit then none else some (Err.of .commit) }
+        ret := if f.commit then none else some (Err.of (.commit f.commitCls)) }
 
 /-- `transactOnConn` with the real `begin` (one `db.Begin()`, inside which database/sql retries ErrBadConn). -/
 def transactOnConn (f : Faults) (b : Body) : Result :=
@@ -236,36 +248,86 @@ def transactOnConn (f : Faults) (b : Body) : Result :=
   else
     { transactOnce f b with log := badPrefix f.badConn (transactOnce f b).log }
 
+/-- the `WithAcceptable` options the connection was built with, in option order: the first installed function
+accepts exactly `Cls.userOk`, the second exactly `Cls.userOk2` (`WithAcceptable` composes them: `pre(err) ||
+acceptable(err)`; with none installed `db.accept == nil`) -/
+structure UA where
+  a1 : Bool := false
+  a2 : Bool := false
+  deriving DecidableEq, Repr, Inhabited
+
 /-- the environment of `commonSqlConn.TransactCtx` -/
 structure Env where
   ctxDone    : Bool     -- ctx.Done() is closed when DoWithAcceptableCtx looks
   brkAllow   : Bool     -- the breaker admits the request
   connOk     : Bool     -- connProv yields a *sql.DB
-  userAccept : Bool     -- a WithAcceptable function is installed (it accepts exactly `Cls.userOk`)
+  userAccept : UA       -- the WithAcceptable functions installed
   ctxDead    : Bool := false   -- … and it is done by its deadline (ctx.Err() = DeadlineExceeded)
   deriving DecidableEq, Repr, Inhabited
 
-def clsAcceptable (userAccept : Bool) : Cls → Bool
+def clsAcceptable (userAccept : UA) : Cls → Bool
   | .plain => false
   | .noRows => true
   | .txDone => true
   | .canceled => true
   | .accType => true
-  | .userOk => userAccept
+  | .userOk => userAccept.a1
+  | .userOk2 => userAccept.a2
 
-def srcAcceptable (userAccept : Bool) : Src → Bool
+def srcAcceptable (userAccept : UA) : Src → Bool
   | .body c => clsAcceptable userAccept c
+  | .commit c => clsAcceptable userAccept c      -- a Commit / Rollback error is classified like any other error:
+  | .rollback c => clsAcceptable userAccept c    -- e.g. a Commit refused with sql.ErrTxDone is "acceptable"
   | .ctx => true                -- errors.Is(err, context.Canceled)
   | _ => false
 
+/-- the class an `errors.Is` / `errors.As` probe finds an error source under -/
+def srcCls : Src → Option Cls
+  | .body c => some c
+  | .commit c => some c
+  | .rollback c => some c
+  | .ctx => some .canceled
+  | _ => none
+
+/-- `errors.Is(err, <sentinel of class c>)` / `errors.As(err, <type of class c>)` -/
+def hasCls (e : Option Err) (c : Cls) : Bool :=
+  match e with
+  | none => false
+  | some e => e.is.any (fun s => srcCls s == some c)
+
+/-- a function value of type `func(error) bool`; `none` = nil -/
+abbrev AccFn := Option (Option Err → Bool)
+
+/-- `db.accept` of a connection built with the WithAcceptable functions `ua` (in option order): nil with none
+installed, else `f1(err) || f2(err)` over the installed ones — the first function accepts exactly the class
+`userOk`, the second exactly `userOk2`. -/
+def uaFn (ua : UA) : AccFn :=
+  if !ua.a1 && !ua.a2 then none
+  else some fun e => (ua.a1 && hasCls e .userOk) || (ua.a2 && hasCls e .userOk2)
+
+/-- `WithAcceptable(new)` applied to a connection whose `accept` is `cur`: install `new` when nothing is
+installed yet, else keep the previous function and consult both (`pre(err) || new(err)`). -/
+def withAcceptable (cur : AccFn) (new : Option Err → Bool) : AccFn :=
+  match cur with
+  | none => some new
+  | some pre => some fun e => pre e || new e
+
+/-- the functions the harness installs: the first accepts exactly class `userOk`, the second exactly `userOk2` -/
+def userFn1 : Option Err → Bool := fun e => hasCls e .userOk
+def userFn2 : Option Err → Bool := fun e => hasCls e .userOk2
+
+/-- the WithAcceptable options of a configuration, in option order -/
+def UA.installed (ua : UA) : List (Option Err → Bool) :=
+  (if ua.a1 then [userFn1] else []) ++ (if ua.a2 then [userFn2] else [])
+
 /-- `commonSqlConn.acceptable`: nil, or something acceptable reachable in the chain -/
-def acceptable (userAccept : Bool) : Option Err → Bool
+def acceptable (userAccept : UA) : Option Err → Bool
   | none => true
   | some e => e.is.any (srcAcceptable userAccept)
 
 /-- what the breaker hears of a finished `transact`: the verdict of `acceptable` — unless the call left by a
 panic (then `acceptable` is not consulted; the real breaker books a failure in its deferred function). -/
-def markOf (userAccept : Bool) (r : Result) : Option Bool :=
+def markOf (userAccept : UA) (r : Result) : Option Bool :=
   if r.escaped then none else some (acceptable userAccept r.ret)
 
 /-- `commonSqlConn.TransactCtx` (and `Transact`, `CachedConn.Transact[Ctx]`, which delegate to it). -/
@@ -275,6 +337,21 @@ def transactCtx (env : Env) (f : Faults) (b : Body) : Result :=
   else if !env.brkAllow then { log := [], runs := 0, body := .notRun, ret := some (Err.of .breaker), mark := none }
   else if !env.connOk then { log := [], runs := 0, body := .notRun, ret := some (Err.of .conn), mark := some false }
   else { transactOnConn f b with mark := markOf env.userAccept (transactOnConn f b) }
+
+/-- `transact(ctx, db, b, fn)`: the connection provider first (its failure is the result, the driver is never
+reached), then `transactOnConn` — the "transact core" the breaker wraps. -/
+def transactFn (connOk : Bool) (f : Faults) (b : Body) : Result :=
+  if !connOk then { log := [], runs := 0, body := .notRun, ret := some (Err.of .conn) }
+  else transactOnConn f b
+
+/-- `Breaker.DoWithAcceptableCtx(ctx, req, acc)` as `TransactCtx` uses it: the context check first, then the
+breaker's admission; an admitted request runs once and ITS result is the result — `acc` (any function of the
+returned error) only decides what is booked, and is not consulted when the request leaves by a panic. -/
+def brkDo (ctxDone ctxDead brkAllow : Bool) (acc : Option Err → Bool) (req : Result) : Result :=
+  if ctxDone then
+    { log := [], runs := 0, body := .notRun, ret := some (Err.of (ctxSrc ctxDead)), mark := none }
+  else if !brkAllow then { log := [], runs := 0, body := .notRun, ret := some (Err.of .breaker), mark := none }
+  else { req with mark := if req.escaped then none else some (acc req.ret) }
 
 /-- the request got past context check, breaker and connection provider -/
 def Env.admitted (env : Env) : Bool := !env.ctxDone && env.brkAllow && env.connOk
